@@ -6,6 +6,7 @@ ENTRY = dict(
     technique="Lean 4 theorems over all frames / streams / configurations (envelope model shared with C01, byte-level network-info and "
               "program-version codecs, PyFrame equality model) + correspondence with Frame.bytes -> FrameReader.read -> fields -> .bytes, "
               "X(data=d).message -> X(message=...).data, and Python ==/!= on generated frame pairs",
+    prop_modules=["C03", "C03Object"],
     level_text=(
         "Proof: `C03.read_encode` shows for ALL frames that pass the reader's gates (<= 1000 bytes, addressed to the library or broadcast, "
         "known sender and kind) and ALL trailing bytes that reading the serialised bytes delivers exactly the same kind, addressing, versions "
@@ -15,7 +16,10 @@ ENTRY = dict(
         "gateway, the three status flags independently, every signal byte, encryption 0..4 (`encOk_iff`), every SSID of <= 255 bytes; every "
         "version triple < 65536, version byte, 2/2/3-byte tag/id/signature. `C03.pyEq_iff`: the tuple comparison of Frame.__eq__ is structural "
         "equality (`pyEq_refl`, `pyEq_same_args`, `pyEq_differs`); `pyEq_fill`/`pyEq_fill_fresh` describe the lazily cached message/data, which "
-        "are part of the compared state. The tie to the code is differential: real frames through a real StreamReader/FrameReader, real "
+        "are part of the compared state. Props/C03Object: `eq_fresh_iff` (fresh frames are equal iff constructed from the same class, addressing, versions, message, data), the precise statement of F5 "
+        "(`eq_after_message_fill`, `eq_after_data_fill`: a frame stays equal to its earlier self iff nothing was cached; `F5_one_sided_fill`; `eq_preserved`), "
+        "and `written_stream_read_back` / `written_stream_delivered`: frames serialised by frame objects and written by FrameWriter are read back by the reader "
+        "model one by one, in order, unchanged (composition with the C04 stream theorem). The tie to the code is differential: real frames through a real StreamReader/FrameReader, real "
         "DeviceAvailableResponse/ProgramVersionResponse objects both ways (plus mutated, truncated and random messages through the decoders), "
         "and ==/!= on pairs that are identical or differ in exactly one of kind, recipient, sender, econet type, version, message, data."),
     level_note="Trusted: Lean kernel; model <-> code ties are differential; text forms of IPv4 addresses, SSIDs (UTF-8) and 'a.b.c' are CPython's. "
@@ -27,6 +31,8 @@ ENTRY = dict(
         "network information data -> message -> data (all configurations, flags independent)": "theorem + correspondence (codec model = network_info.py)",
         "program version data -> message -> data": "theorem + correspondence",
         "encryption kinds accepted by the decoder are exactly 0..4": "table",
+        "equality of used frame objects (known finding F5 stated exactly)": "theorem (C03Object) + correspondence",
+        "object -> FrameWriter -> wire -> FrameReader for whole frame sequences": "theorem (written_stream_read_back)",
         "Frame.__eq__ is structural: equal iff same class, addressing, versions, message, data": "theorem about PyFrame.pyEq + correspondence (Python ==/!= equals that relation on generated pairs)",
     },
     assumptions=COMMON_ASSUME + [
